@@ -39,7 +39,7 @@ SYSCALL_FAULTS = [
     ("chown-EPERM", ["fchownat:error=EPERM"], ["(OChown, Fail 0%nat)"]),
     ("chmod-EPERM", ["fchmodat:error=EPERM"], ["(OChmod, Fail 0%nat)"]),
     ("rename-EXDEV+fsync-EIO", ["renameat:error=EXDEV", "fsync:error=EIO"], ["(ORename, Fail 0%nat)", "(OSync, Fail 0%nat)"]),
-    ("rename-EXDEV+unlink-EPERM", ["renameat:error=EXDEV", "unlinkat:error=EPERM"], ["(ORename, Fail 0%nat)", "(ORemoveTemp, Fail 0%nat)"]),
+    ("rename-EXDEV+unlink-EPERM", ["renameat:error=EXDEV", "unlinkat:error=EPERM"], ["(ORename, Fail 0%nat)", "(ORemoveTemp, Fail 0%nat)", "(ORemoveDiscard, Fail 0%nat)"]),
 ]
 
 
@@ -266,9 +266,10 @@ def coq_faults(point, action, nth, info, extra=()):
     return "[" + "; ".join(l) + "]"
 
 
-def expected_obs(rcc, data, mode, present, ntemps, trace):
+def expected_obs(rcc, data, mode, present, ntemps, trace, old, ref):
     hooks = [CODE[t] for t in trace if t in CODE]
-    return [rcc, present, mode if present else 0, 1 if ntemps > 0 else 0, len(hooks)] + hooks + list(data if present else b"")
+    comp = [0] if data == old else ([1] if data == ref else [2] + list(data))
+    return [rcc, present, mode if present else 0, 1 if ntemps > 0 else 0, len(hooks)] + hooks + (comp if present else [])
 
 
 def run_fault(root, shmroot, case, cross, fault, strace_inject=None):
@@ -318,7 +319,8 @@ def oracle(case, info, run, point, action, cross):
     if case.get("fm", 0) == 2 and info["tail"] and info["tail"] not in data:
         trunc = sig_xdev and "copy_create_dst" in run["trace"] and data != new
         if not trunc:  # truncation already reported above
-            key = "fm-tail-lost" if (info["n"] == 0 and rc == 0) else None
+            # signature of the recorded finding: no result was printed and the (committed) new content is what is on disk
+            key = "fm-tail-lost" if (info["n"] == 0 and new is not None and data == new) else None
             bad.append((key, "front matter tail lost (exit %d)" % rc))
     if rc in (1, 2) and run["ntemps"] > 0 and "create_temp" in run["trace"] and not case.get("fm", 0):
         bad.append(("temp-leak", "temp file left in TMPDIR after exit %d" % rc))
@@ -431,14 +433,16 @@ def run(chk):
         for ci, (case, info) in enumerate(zip(cases, infos)):
             defs.append("Definition old_%d : bytes := %s." % (ci, vlib.coq_str(case["content"])))
             defs.append("Definition plan_%d : plan := %s." % (ci, coq_plan(info)))
+            defs.append("Definition ref_%d : bytes := %s." % (ci, vlib.coq_str(info["ref_out"])))
         coq_cases = []
         for job, r in zip(jobs, runs):
             ci, cross, pt, act, k, inj, mf = job
-            term = "((%s, %d), %s, plan_%d, (old_%d, %d))" % ("true" if cross else "false", cases[ci].get("fm", 0),
-                                                               coq_faults(pt, act, k, infos[ci], mf), ci, ci, cases[ci]["mode"])
-            coq_cases.append((term, expected_obs(r["rc"], r["data"], r["mode"], r["present"], r["ntemps"], r["trace"])))
+            term = "((%s, %d), %s, plan_%d, (old_%d, %d), ref_%d)" % ("true" if cross else "false", cases[ci].get("fm", 0),
+                                                                      coq_faults(pt, act, k, infos[ci], mf), ci, ci, cases[ci]["mode"], ci)
+            coq_cases.append((term, expected_obs(r["rc"], r["data"], r["mode"], r["present"], r["ntemps"], r["trace"],
+                                                 cases[ci]["content"], infos[ci]["ref_out"])))
         t0 = time.time()
-        mism, err = vlib.coq_mismatches(chk.workdir, "c12_cases", "\n".join(defs), "c12_case", coq_cases, shard=250)
+        mism, err = vlib.coq_mismatches(chk.workdir, "c12_cases", "\n".join(defs), "c12_case", coq_cases, shard=max(60, len(coq_cases) // vlib.NCPU + 1))
         vlib.log("C12: model evaluated on %d schedules in %.1fs" % (len(coq_cases), time.time() - t0))
         if err:
             broken.append("model evaluation failed: " + err[-600:])
@@ -495,7 +499,7 @@ def run(chk):
         chk.violation({"kind": "correspondence", "broken": "Model/InPlace.v vs the -i protocol of the binary",
                        "case": case_json(cases[ci]), "cross": cross, "fault": None if pt is None else "%s:%s:%d" % (pt, act, k), "strace": inj,
                        "impl_obs": coq_cases[i][1][:40], "model_obs": mo[:40], "count": len(disagreements),
-                       "legend": "[exit class(9=killed), target present, mode, temp left, #hooks, hook codes..., bytes...]"},
+                       "legend": "[exit class(9=killed), target present, mode, temp left, #hooks, hook codes..., 0=old bytes | 1=stdout of the command without -i | 2,bytes...]"},
                       False, "model and implementation disagree on %d schedules, but the direct oracle found no failing input" % len(disagreements))
     if broken and not chk.violations:
         chk.violation({"kind": "obligation", "broken": broken}, False, "; ".join(broken)[:600])
